@@ -333,6 +333,102 @@ func v6Describe(input []byte) map[string]any {
 	return d
 }
 
+// ---------------------------------------------------------------- signature verdicts, computed without jwx
+
+// v6Frame returns protected (base64 text), payload (base64 text) and signature bytes of a single-signature input
+func v6Frame(input []byte) (prot, pl string, sig []byte, ok bool) {
+	t := bytes.TrimSpace(input)
+	if len(t) > 0 && t[0] == '{' {
+		var m struct {
+			Payload    string  `json:"payload"`
+			Protected  *string `json:"protected"`
+			Signature  *string `json:"signature"`
+			Signatures []struct {
+				Protected *string `json:"protected"`
+				Signature *string `json:"signature"`
+			} `json:"signatures"`
+		}
+		if json.Unmarshal(t, &m) != nil {
+			return
+		}
+		p, sg := m.Protected, m.Signature
+		if len(m.Signatures) == 1 {
+			p, sg = m.Signatures[0].Protected, m.Signatures[0].Signature
+		} else if len(m.Signatures) > 1 {
+			return
+		}
+		if p == nil || sg == nil {
+			return
+		}
+		b, ok2 := v6B64Any(*sg)
+		return *p, m.Payload, b, ok2
+	}
+	parts := strings.Split(string(t), ".")
+	if len(parts) != 3 {
+		return
+	}
+	b, ok2 := v6B64Any(parts[2])
+	return parts[0], parts[1], b, ok2
+}
+
+func v6EcVerify(pub *ecdsa.PublicKey, signingInput string, sig []byte) bool {
+	if len(sig) != 64 {
+		return false
+	}
+	h := sha256.Sum256([]byte(signingInput))
+	return ecdsa.Verify(pub, h[:], new(big.Int).SetBytes(sig[:32]), new(big.Int).SetBytes(sig[32:]))
+}
+
+// v6Verdicts: does the signature verify (ES256 only: every key here is P-256, any other alg cannot match the key)
+// against the embedded jwk / against each known key. Uses crypto/ecdsa directly.
+func v6Verdicts(input []byte, keys []*v6Key) (sigJwk bool, sigKeys []int) {
+	sigKeys = []int{}
+	prot, pl, sig, ok := v6Frame(input)
+	if !ok {
+		return
+	}
+	hb, ok := v6B64Any(prot)
+	if !ok {
+		return
+	}
+	ms, ok := v6Members(hb)
+	if !ok {
+		return
+	}
+	alg, jwkRaw := "", ""
+	for _, m := range ms {
+		if m.k == "alg" {
+			alg = m.v
+		}
+		if m.k == "jwk" {
+			jwkRaw = m.v
+		}
+	}
+	if alg != `"ES256"` {
+		return
+	}
+	si := prot + "." + pl
+	for i, k := range keys {
+		if v6EcVerify(&k.priv.PublicKey, si, sig) {
+			sigKeys = append(sigKeys, i)
+		}
+	}
+	if jwkRaw != "" {
+		var j struct{ Kty, Crv, X, Y string }
+		if json.Unmarshal([]byte(jwkRaw), &j) == nil && j.Kty == "EC" && j.Crv == "P-256" {
+			x, e1 := base64.RawURLEncoding.DecodeString(j.X)
+			y, e2 := base64.RawURLEncoding.DecodeString(j.Y)
+			if e1 == nil && e2 == nil {
+				pub := &ecdsa.PublicKey{Curve: elliptic.P256(), X: new(big.Int).SetBytes(x), Y: new(big.Int).SetBytes(y)}
+				if pub.Curve.IsOnCurve(pub.X, pub.Y) {
+					sigJwk = v6EcVerify(pub, si, sig)
+				}
+			}
+		}
+	}
+	return
+}
+
 // ---------------------------------------------------------------- canonical results
 
 func v6Short(h hash.SHA256Hash) string { return h.String()[:8] }
@@ -910,6 +1006,8 @@ type v6Gen struct {
 	rnd  *rand.Rand
 	keys []*v6Key
 	pid  int
+	lastSi  string
+	lastSig []byte
 	sink func(op v6Op) string // executes the op on the real code, records op and line, returns the line
 }
 
@@ -983,7 +1081,7 @@ func (g *v6Gen) parserMutants(budget int) {
 		ms = append(ms, mut{note, v6Compact(key, v6HdrJSON(ps), payload)})
 	}
 	addH("valid", base, ph)
-	names := []string{"alg", "crit", "cty", "jwk", "kid", "lc", "pal", "prevs", "sigt", "ver", "typ", "b64x", "x5u"}
+	names := []string{"alg", "crit", "cty", "jwk", "kid", "lc", "pal", "prevs", "sigt", "ver", "typ", "b64", "x5u"}
 	for _, nme := range names {
 		addH("remove:"+nme, v6Remove(base, nme), ph)
 		for _, kv := range v6Kinds {
@@ -1102,6 +1200,8 @@ type v6Tx struct {
 	key   int    // signer
 	did   string // DID this tx "creates/updates" (resolver entry keyed by its ref), "" if none
 	call  v6Call
+	si    string
+	sig   []byte
 }
 
 type v6Spec struct {
@@ -1117,6 +1217,8 @@ type v6Spec struct {
 	alg      string
 	twoSigs  bool
 	embedPriv bool // embed the signer's PRIVATE key as jwk
+	flat     bool // JWS flattened JSON serialisation instead of compact
+	ver      int  // 0 = 2
 }
 
 func v6Sha(b []byte) string { h := sha256.Sum256(b); return v6Hex(h[:]) }
@@ -1126,7 +1228,11 @@ func (g *v6Gen) build(sp v6Spec) ([]byte, v6Call) {
 	if sp.embed >= 0 {
 		key = g.keys[sp.embed]
 	}
-	ps := v6BaseHdr(key, map[bool]string{true: "", false: sp.kid}[sp.embed >= 0], "application/did+json", sp.lc, sp.prevs, 1700000000, 2, sp.pal)
+	ver := sp.ver
+	if ver == 0 {
+		ver = 2
+	}
+	ps := v6BaseHdr(key, map[bool]string{true: "", false: sp.kid}[sp.embed >= 0], "application/did+json", sp.lc, sp.prevs, 1700000000, ver, sp.pal)
 	if sp.embed < 0 && sp.kid == "" {
 		ps = v6Remove(ps, "kid")
 	}
@@ -1146,14 +1252,20 @@ func (g *v6Gen) build(sp v6Spec) ([]byte, v6Call) {
 		parts := strings.Split(si, ".")
 		input = []byte(fmt.Sprintf(`{"payload":"%s","signatures":[{"protected":"%s","signature":"%s"},{"protected":"%s","signature":"%s"}]}`, parts[1], parts[0], v6b64(sig), parts[0], v6b64(sig)))
 	}
+	if sp.flat {
+		parts := strings.Split(si, ".")
+		input = []byte(fmt.Sprintf(`{"payload":"%s","protected":"%s","signature":"%s"}`, parts[1], parts[0], v6b64(sig)))
+	}
+	g.lastSi, g.lastSig = si, sig
 	c := v6CallOf(input)
-	// verdicts, computed here from what was actually signed (independent of jws.Verify)
-	algOK := sp.alg == "" || sp.alg == "ES256"
-	valid := !sp.tamper && algOK
-	c.SigJwk = valid && sp.embed == sp.signer
-	c.SigKeys = []int{}
-	if valid {
-		c.SigKeys = []int{sp.signer}
+	// verdicts: ECDSA verification done here with crypto/ecdsa (independent of jws.Verify), cross-checked with what was signed
+	c.SigJwk, c.SigKeys = v6Verdicts(input, g.keys)
+	if !sp.twoSigs {
+		algOK := sp.alg == "" || sp.alg == "ES256"
+		valid := !sp.tamper && algOK
+		if c.SigJwk != (valid && sp.embed == sp.signer) || (len(c.SigKeys) > 0) != valid {
+			panic("verif: verdict by verification and verdict by construction disagree")
+		}
 	}
 	if sp.embed < 0 {
 		if u, err := did.ParseDIDURL(sp.kid); err == nil {
@@ -1234,6 +1346,8 @@ func (g *v6Gen) history(steps int, schedules bool) {
 		if g.rnd.Intn(4) == 0 {
 			sp.pal = []string{"QUJD"}
 		}
+		sp.ver = 1 + g.rnd.Intn(2)
+		sp.flat = g.rnd.Intn(8) == 0
 		return sp, didName
 	}
 	offer := func(sp v6Spec, withPayload int, note string) v6Call {
@@ -1262,7 +1376,7 @@ func (g *v6Gen) history(steps int, schedules bool) {
 	admit := func(sp v6Spec, c v6Call, did string) {
 		lc, _ := strconv.Atoi(sp.lc)
 		in, _ := base64.StdEncoding.DecodeString(c.In)
-		t := v6Tx{ref: c.Jws["ref"].(string), clock: lc, prevs: sp.prevs, input: in, pid: sp.pid, ph: sp.ph, key: sp.signer, did: did, call: c}
+		t := v6Tx{ref: c.Jws["ref"].(string), clock: lc, prevs: sp.prevs, input: in, pid: sp.pid, ph: sp.ph, key: sp.signer, did: did, call: c, si: g.lastSi, sig: g.lastSig}
 		dagTxs = append(dagTxs, t)
 		byRef[t.ref] = t
 	}
@@ -1315,7 +1429,53 @@ func (g *v6Gen) history(steps int, schedules bool) {
 			}
 			c.Note = "re-add"
 			g.emit(v6Op{Op: "add", Call: &c})
-		case kind < 55 && len(pending) > 0: // re-offer something rejected earlier
+		case kind < 52: // the same signed content in another serialisation: other bytes, other ref -> another transaction
+			t := dagTxs[g.rnd.Intn(len(dagTxs))]
+			parts := strings.Split(t.si, ".")
+			var input []byte
+			if len(t.input) > 0 && t.input[0] == '{' {
+				input = []byte(t.si + "." + v6b64(t.sig))
+			} else {
+				input = []byte(fmt.Sprintf(`{"payload":"%s","protected":"%s","signature":"%s"}`, parts[1], parts[0], v6b64(t.sig)))
+			}
+			c := v6CallOf(input)
+			c.SigJwk, c.SigKeys = v6Verdicts(input, g.keys)
+			c.KidDid = t.call.KidDid
+			c.Phs = []string{}
+			c.Note = "re-encoded-duplicate"
+			line := g.emit(v6Op{Op: "add", Call: &c})
+			if strings.HasPrefix(line, "r=ok") {
+				dagTxs = append(dagTxs, v6Tx{ref: c.Jws["ref"].(string), clock: t.clock, prevs: t.prevs, input: input, pid: t.pid, ph: t.ph, key: t.key, call: c, si: t.si, sig: t.sig})
+			}
+		case kind < 55: // child offered before its parent, then the parent, then the child again
+			spA, _ := validSpec()
+			if spA.embed < 0 {
+				spA.embed = spA.signer
+			}
+			_, cA := g.build(spA)
+			pa := spA.pid
+			cA.Pid, cA.Sha, cA.Phs, cA.Note = &pa, v6Sha(v6Payload(&pa)), []string{spA.ph}, "late-parent"
+			siA, sigA := g.lastSi, g.lastSig
+			lcA, _ := strconv.Atoi(spA.lc)
+			refA := cA.Jws["ref"].(string)
+			pidB := newPid()
+			spB := v6Spec{prevs: []string{refA}, lc: strconv.Itoa(lcA + 1), signer: spA.signer, embed: spA.signer, pid: pidB, ph: v6Sha(v6Payload(&pidB))}
+			_, cB := g.build(spB)
+			siB, sigB := g.lastSi, g.lastSig
+			cB.Pid, cB.Sha, cB.Phs, cB.Note = &pidB, v6Sha(v6Payload(&pidB)), []string{spB.ph}, "child-before-parent"
+			g.emit(v6Op{Op: "add", Call: &cB})
+			okA := strings.HasPrefix(g.emit(v6Op{Op: "add", Call: &cA}), "r=ok")
+			cB.Note = "child-after-parent"
+			okB := strings.HasPrefix(g.emit(v6Op{Op: "add", Call: &cB}), "r=ok")
+			if okA {
+				g.lastSi, g.lastSig = siA, sigA
+				admit(spA, cA, "")
+			}
+			if okB {
+				g.lastSi, g.lastSig = siB, sigB
+				admit(spB, cB, "")
+			}
+		case kind < 58 && len(pending) > 0: // re-offer something rejected earlier
 			c := pending[g.rnd.Intn(len(pending))]
 			c.Note = "re-offer"
 			g.emit(v6Op{Op: "add", Call: &c})
@@ -1425,10 +1585,8 @@ func (g *v6Gen) history(steps int, schedules bool) {
 					sp.ph = ""
 					note += ":empty-payload-hash"
 				case 21:
-					if len(sp.prevs) > 0 && sp.embed < 0 {
-						// document found only for the LAST prev; earlier prevs say not found: still valid
-						note += ":(valid)kid-via-later-prev"
-					}
+					sp.flat = !sp.flat
+					note += ":(valid)other-serialisation"
 				}
 			}
 			c := offer(sp, wp, note)
@@ -1703,16 +1861,16 @@ func TestVerifC06(t *testing.T) {
 		for i := 0; i < 4; i++ {
 			g.keys = append(g.keys, v6NewKey())
 		}
-		nBases := envInt("VERIF_PARSE_BASES", map[bool]int{true: 120, false: 5}[thorough])
+		nBases := envInt("VERIF_PARSE_BASES", map[bool]int{true: 120, false: 8}[thorough])
 		for i := 0; i < nBases; i++ {
 			g.parserMutants(0)
 		}
-		nHist := envInt("VERIF_HISTORIES", map[bool]int{true: 400, false: 30}[thorough])
+		nHist := envInt("VERIF_HISTORIES", map[bool]int{true: 400, false: 40}[thorough])
 		for i := 0; i < nHist; i++ {
 			g.history(20+g.rnd.Intn(40), true)
 		}
-		g.genSchedules(2, envInt("VERIF_SCHED2", map[bool]int{true: 64, false: 16}[thorough]))
-		g.genSchedules(3, envInt("VERIF_SCHED3", map[bool]int{true: 24, false: 2}[thorough]))
+		g.genSchedules(2, envInt("VERIF_SCHED2", map[bool]int{true: 64, false: 24}[thorough]))
+		g.genSchedules(3, envInt("VERIF_SCHED3", map[bool]int{true: 24, false: 4}[thorough]))
 	})
 }
 
